@@ -56,7 +56,10 @@ def run_property(pid, tier):
             rule_counts["%s@%s" % (k, cfg)] = v
         for k, v in getattr(ctx, "extra", {}).items():
             extra["%s@%s" % (k, cfg)] = v
-    floors = getattr(mod, "FLOORS", {})
+    floors = dict(getattr(mod, "FLOORS", {}))
+    fj = os.path.join(HERE, "floors.json")
+    if os.path.exists(fj):
+        floors.update(json.load(open(fj)).get(pid, {}))
     return mod, configs, all_obs, fns, nfn_analysed, rule_counts, floors, extra
 
 def main(argv):
@@ -101,8 +104,10 @@ def main(argv):
     # floors: fail closed when fewer instances were evaluated than were confirmed by hand
     floor_fail = []
     per_rule = {}
+    seen_k = set()
     for o in obs:
-        if o.cfg == configs[0]:
+        if o.cfg == configs[0] and o.key not in seen_k:
+            seen_k.add(o.key)
             per_rule[o.rule] = per_rule.get(o.rule, 0) + 1
     for rule, n in floors.items():
         if per_rule.get(rule, 0) < n:
